@@ -15,9 +15,46 @@ pub fn trait_impl_fn_name(
     format!(
         "trait_impl#{}#{}#{}",
         trait_name.0,
-        ty_compact(for_ty),
+        ty_compact(&spell_instances_like_mono(for_ty)),
         method_name
     )
+}
+
+/// The name of an impl function is computed both before monomorphisation (the implementing
+/// type is still `Box[int32]`) and after it (the dyn wrappers see `Box__int32`): spell generic
+/// instances the way monomorphisation names them so that both agree.
+fn spell_instances_like_mono(ty: &tast::Ty) -> tast::Ty {
+    match ty {
+        tast::Ty::TApp { ty: base, args } if !args.is_empty() => {
+            let name = format!(
+                "{}__{}",
+                base.get_constr_name_unsafe(),
+                args.iter().map(ty_compact).collect::<Vec<_>>().join("__")
+            );
+            match base.as_ref() {
+                tast::Ty::TEnum { .. } => tast::Ty::TEnum { name },
+                _ => tast::Ty::TStruct { name },
+            }
+        }
+        tast::Ty::TTuple { typs } => tast::Ty::TTuple {
+            typs: typs.iter().map(spell_instances_like_mono).collect(),
+        },
+        tast::Ty::TArray { len, elem } => tast::Ty::TArray {
+            len: *len,
+            elem: Box::new(spell_instances_like_mono(elem)),
+        },
+        tast::Ty::TVec { elem } => tast::Ty::TVec {
+            elem: Box::new(spell_instances_like_mono(elem)),
+        },
+        tast::Ty::TRef { elem } => tast::Ty::TRef {
+            elem: Box::new(spell_instances_like_mono(elem)),
+        },
+        tast::Ty::TFunc { params, ret_ty } => tast::Ty::TFunc {
+            params: params.iter().map(spell_instances_like_mono).collect(),
+            ret_ty: Box::new(spell_instances_like_mono(ret_ty)),
+        },
+        other => other.clone(),
+    }
 }
 
 pub fn inherent_method_fn_name(receiver_ty: &tast::Ty, method_name: &str) -> String {
